@@ -50,6 +50,7 @@ pub(crate) struct HonestScenario<'a> {
     pub explore_devs: bool,
     /// every full node is this many blocks ahead of the last state it announced
     pub ahead: u64,
+    pub clock_behind_ms: u64,
     /// findings at the quiescent points between the phases (the tip has to be the heaviest
     /// announced one there, too, not only at the end of the history)
     pub interim: std::cell::RefCell<Vec<(String, String)>>,
@@ -65,7 +66,13 @@ impl<'a> Scenario for HonestScenario<'a> {
         for p in world.peers.iter_mut() {
             p.ahead = self.ahead;
         }
-        crate::verif::client::set_now(crate::verif::world::BASE_TS + 1_000_000);
+        if self.clock_behind_ms > 0 {
+            let (_, chain, h) = self.peers[0];
+            let ts: u64 = self.chains[chain].blocks[h as usize].header().timestamp();
+            crate::verif::client::set_now(ts - self.clock_behind_ms);
+        } else {
+            crate::verif::client::set_now(crate::verif::world::BASE_TS + 1_000_000);
+        }
         let mut sim = match old {
             Some(old) => Sim::recycle(old, self.cfg.clone(), world),
             None => scen::new_sim(self.env, self.cfg.clone(), world),
@@ -264,6 +271,10 @@ pub(crate) struct Item {
     pub seeds: Vec<u64>,
     pub bound: usize,
     pub ahead: u64,
+    /// the client's clock is this many ms behind the timestamp of the block the first peer starts
+    /// at (0 = the default clock, far ahead of every block): blocks up to 15 s in the future are
+    /// valid by consensus and clocks are not synchronised
+    pub clock_behind_ms: u64,
 }
 
 pub(crate) fn items(thorough: bool) -> Vec<Item> {
@@ -286,6 +297,7 @@ pub(crate) fn items(thorough: bool) -> Vec<Item> {
             seeds: seeds_small.clone(),
             bound: bound_small,
             ahead: 0,
+        clock_behind_ms: 0,
         });
     }
     // rising x2 per epoch, two peers at different heights, growth by 1 / 2 / many, scripts on
@@ -302,6 +314,7 @@ pub(crate) fn items(thorough: bool) -> Vec<Item> {
         seeds: vec![1],
         bound: bound_small,
         ahead: 0,
+        clock_behind_ms: 0,
     });
     v.push(Item {
         name: "zigzag30".into(),
@@ -316,6 +329,7 @@ pub(crate) fn items(thorough: bool) -> Vec<Item> {
         seeds: seeds_small.clone(),
         bound: bound_small,
         ahead: 0,
+        clock_behind_ms: 0,
     });
     v.push(Item {
         name: "falling40".into(),
@@ -330,6 +344,7 @@ pub(crate) fn items(thorough: bool) -> Vec<Item> {
         seeds: seeds_small.clone(),
         bound: 0,
         ahead: 0,
+        clock_behind_ms: 0,
     });
     v.push(Item {
         name: "x1.5-60".into(),
@@ -344,6 +359,7 @@ pub(crate) fn items(thorough: bool) -> Vec<Item> {
         seeds: seeds_small.clone(),
         bound: 0,
         ahead: 0,
+        clock_behind_ms: 0,
     });
     // plateau: 16, 32, 48, 64, 32 per epoch of 3 blocks; proven in epoch 0, next proof in epoch 4
     v.push(Item {
@@ -359,6 +375,7 @@ pub(crate) fn items(thorough: bool) -> Vec<Item> {
         seeds: vec![1, 2],
         bound: 0,
         ahead: 0,
+        clock_behind_ms: 0,
     });
     v.push(Item {
         name: "plateau-down-up".into(),
@@ -373,6 +390,7 @@ pub(crate) fn items(thorough: bool) -> Vec<Item> {
         seeds: vec![1, 2],
         bound: 0,
         ahead: 0,
+        clock_behind_ms: 0,
     });
     // growth by exactly N+1, N+2, 2N, 2N+1 blocks after a proof (few or single samples)
     for (name, steps) in [("gapN+1", vec![14u64, 18, 23]), ("gapN+2", vec![15u64, 20, 27]), ("gap2N", vec![16u64, 22, 29])] {
@@ -389,6 +407,7 @@ pub(crate) fn items(thorough: bool) -> Vec<Item> {
             seeds: if thorough { (1..=12).collect() } else { vec![1, 2, 3, 4] },
             bound: 0,
             ahead: 0,
+        clock_behind_ms: 0,
         });
     }
     // a fork shallower than last-N: both peers move to the heavier branch
@@ -405,6 +424,7 @@ pub(crate) fn items(thorough: bool) -> Vec<Item> {
         seeds: vec![1],
         bound: bound_small,
         ahead: 0,
+        clock_behind_ms: 0,
     });
     // falling difficulty (x 1/2 per epoch): the last part of the DIFFICULTY range of the first proof
     // covers many more than last-N blocks, the server sends all blocks since the boundary as the
@@ -430,6 +450,7 @@ pub(crate) fn items(thorough: bool) -> Vec<Item> {
             seeds: seeds_small.clone(),
             bound: bound_small,
             ahead: 0,
+        clock_behind_ms: 0,
         });
     }
     // the chain reorganises (within last-N) while the client is down: after the restart there is no
@@ -449,6 +470,7 @@ pub(crate) fn items(thorough: bool) -> Vec<Item> {
             seeds: vec![1],
             bound: bound_small,
             ahead: 0,
+        clock_behind_ms: 0,
         });
     }
     // two peers at different heights; the LOWER one grows block by block (the child shortcut of a
@@ -469,6 +491,7 @@ pub(crate) fn items(thorough: bool) -> Vec<Item> {
             seeds: vec![1],
             bound: bound_small,
             ahead: 0,
+        clock_behind_ms: 0,
         });
     }
     // the full node is three blocks ahead of the state it announced and answers the filter
@@ -487,6 +510,7 @@ pub(crate) fn items(thorough: bool) -> Vec<Item> {
         seeds: vec![1],
         bound: bound_small,
         ahead: 3,
+        clock_behind_ms: 0,
     });
     // MMR activation boundary (epoch 1 = block 5): tips below, at and just above the first block
     // of the activation epoch, which carries no chain root yet
@@ -503,6 +527,23 @@ pub(crate) fn items(thorough: bool) -> Vec<Item> {
         seeds: seeds_small.clone(),
         bound: bound_small,
         ahead: 0,
+        clock_behind_ms: 0,
+    });
+    // the peers' tips carry timestamps a few seconds AHEAD of the client's clock
+    v.push(Item {
+        name: "clock-behind-the-peers".into(),
+        chain_len: 12,
+        plan: plan(4, &[16, 24, 16]),
+        fork: None,
+        peers: vec![(1, 0, 7), (2, 0, 7)],
+        phases: vec![Phase::Grow(8), Phase::Grow(12)],
+        last_n: n,
+        mmr_epoch: 0,
+        with_scripts: true,
+        seeds: vec![1],
+        bound: bound_small,
+        ahead: 0,
+        clock_behind_ms: 5_000,
     });
     // three peers, one lagging, quorum 2
     v.push(Item {
@@ -518,6 +559,7 @@ pub(crate) fn items(thorough: bool) -> Vec<Item> {
         seeds: vec![1],
         bound: bound_small,
         ahead: 0,
+        clock_behind_ms: 0,
     });
     // long chains: default environment only
     v.push(Item {
@@ -533,6 +575,7 @@ pub(crate) fn items(thorough: bool) -> Vec<Item> {
         seeds: seeds_small.clone(),
         bound: 0,
         ahead: 0,
+        clock_behind_ms: 0,
     });
     if thorough {
         v.push(Item {
@@ -552,6 +595,7 @@ pub(crate) fn items(thorough: bool) -> Vec<Item> {
             seeds: vec![1, 2, 3],
             bound: 0,
             ahead: 0,
+        clock_behind_ms: 0,
         });
         v.push(Item {
             name: "rising-x2-short-epochs".into(),
@@ -566,6 +610,7 @@ pub(crate) fn items(thorough: bool) -> Vec<Item> {
             seeds: (1..=8).collect(),
             bound: 1,
             ahead: 0,
+        clock_behind_ms: 0,
         });
     }
     v
@@ -605,6 +650,7 @@ pub(crate) fn build_scenario<'a>(env: &'a Env, item: &Item, seed: u64) -> Honest
         phase: Cell::new(0),
         explore_devs: item.bound > 0,
         ahead: item.ahead,
+        clock_behind_ms: item.clock_behind_ms,
         interim: Default::default(),
     }
 }
